@@ -17,6 +17,9 @@
 
 #if defined(HAVE_AVXINTRIN_H) && defined(HAVE_WMMINTRIN_H)
 #include "aegis256_aesni.h"
+#ifdef SODIUM_VERIF
+# include "private/verif.h"
+#endif
 #endif
 
 static const aegis256_implementation *implementation = &aegis256_soft_implementation;
@@ -140,10 +143,16 @@ int
 _crypto_aead_aegis256_pick_best_implementation(void)
 {
     implementation = &aegis256_soft_implementation;
+#ifdef SODIUM_VERIF
+    SODIUM_VERIF_EVENT("pick", "aegis256", "soft");
+#endif
 
 #if defined(HAVE_ARMCRYPTO) && defined(NATIVE_LITTLE_ENDIAN)
     if (sodium_runtime_has_armcrypto()) {
         implementation = &aegis256_armcrypto_implementation;
+#ifdef SODIUM_VERIF
+        SODIUM_VERIF_EVENT("pick", "aegis256", "armcrypto");
+#endif
         return 0;
     }
 #endif
@@ -151,6 +160,9 @@ _crypto_aead_aegis256_pick_best_implementation(void)
 #if defined(HAVE_AVXINTRIN_H) && defined(HAVE_WMMINTRIN_H)
     if (sodium_runtime_has_aesni() & sodium_runtime_has_avx()) {
         implementation = &aegis256_aesni_implementation;
+#ifdef SODIUM_VERIF
+        SODIUM_VERIF_EVENT("pick", "aegis256", "aesni");
+#endif
         return 0;
     }
 #endif
